@@ -515,3 +515,53 @@ func verifC10_bfinal() {
 	c.CloseNow()
 	vObserve("c10bfinal", shape, err == nil, err2 == nil)
 }
+
+// C18.past-idle: a deadline that is already in the past is set while no call is active, and the call follows at once
+// (no pause in between: the idiom `SetReadDeadline(t); Read(p)` with a t that has just passed). The deadline passed while
+// no call was active: the call fails with a deadline error, the connection stays usable, and after the deadline is reset
+// the next call works.
+func verifC18_past_idle() {
+	client := vParam("client", 1) == 1
+	vInstallRand()
+	mk := func(f vFrame) vFrame {
+		f.masked = !client
+		if f.masked {
+			copy(f.key[:], vBytes("key", 4))
+		}
+		return f
+	}
+	wire := vEncodeFrame(mk(vFrame{fin: true, opcode: 2, payload: vBytes("m", 2)}))
+	t := vNewTransport(wire)
+	t.endMode = vEndBlock
+	gate := t.vTimedGate(0)
+	c := vNewConn(t, client, nil, 32, 64)
+	nc := NetConn(vBG, c, MessageBinary)
+	write := vChoose("dir", 2) == 1
+	vClassify("dir", []string{"read", "write"}[vChoose0(write)])
+	ago := []time.Duration{time.Second, time.Nanosecond, 0}[vChoose("ago", 3)]
+	p := make([]byte, 4)
+	var err error
+	if write {
+		nc.SetWriteDeadline(time.Now().Add(-ago))
+		_, err = nc.Write([]byte("x"))
+	} else {
+		nc.SetReadDeadline(time.Now().Add(-ago))
+		_, err = nc.Read(p)
+	}
+	vReach("C18.past-idle.called")
+	vAssert(vAnd(err != nil, errors.Is(err, context.DeadlineExceeded)), "C18.deadline.idle-expiry-fails-calls-with-a-deadline-error")
+	vGhostSettle()
+	vAssert(vIsOpen(c), "C18.deadline.idle-expiry-keeps-connection")
+	t.vOpenGate(gate)
+	if write {
+		nc.SetWriteDeadline(time.Time{})
+		_, err = nc.Write([]byte("y"))
+		vAssert(err == nil, "C18.deadline.usable-after-reset")
+	} else {
+		nc.SetReadDeadline(time.Time{})
+		n, e := nc.Read(p)
+		vAssert(vAnd(e == nil, n == 2), "C18.deadline.usable-after-reset")
+	}
+	c.CloseNow()
+	vObserve("c18pastidle", write, err == nil)
+}
